@@ -209,6 +209,7 @@ func (b *Block) UnmarshalJSON(data []byte) error {
 	if err != nil {
 		return err
 	}
+	b.Transactions = nil // The receiver can hold transactions of another block.
 	if len(auxb.Transactions) != 0 {
 		b.Transactions = make([]*transaction.Transaction, 0, len(auxb.Transactions))
 		for _, txBytes := range auxb.Transactions {
